@@ -85,7 +85,7 @@ class Case:
         self.count = False
 
 
-QUICK_FUEL_CAP = 300000      # explored transitions per case in the quick tier (typical cases need < 10^5)
+QUICK_FUEL_CAP = 1000000     # explored transitions per case in the quick tier (the costly part of an oversized case was the diagnosis)
 DIAG_FUEL_CAP = 60000        # the breadth-first diagnosis run after a failed obligation
 
 
